@@ -939,8 +939,8 @@ def r6_arithmetic(check, prog, canon):
                 ok = raw[0] == 'comp' and raw[3][0][1] == ('attr', s, 'base_prior')
                 e = raw[3][0][0]
                 elt = raw[2]
-                ok = ok and elt[0] == 'ite' and elt[2][0] == 'call' and \
-                    elt[2][1] == ('attr', e, 'sample') and elt[3] == e
+                ok = ok and elt[0] == 'ite' and elt[3] == e and \
+                    drawn_from(elt[2], e)
             t2 = assume(arr[0].value, arr[0].cond)
             ok = ok and any(c[1] == ('attr', s, 'transformation') and c[2] and
                             c[2][0][0] == 'star' for c in subterms(t2) if c[0] == 'call') \
@@ -948,6 +948,28 @@ def r6_arithmetic(check, prog, canon):
     check.require(ok, 'R6-transformed-sample', 'TransformedPrior.sample',
                   'samples = transformation applied to the base samples, set by set',
                   loc, fail_detail='returns %s' % [show(o.value)[:120] for o in rets])
+
+
+def drawn_from(t, e):
+    """t is a sample of the prior e: e.sample(...), or the entry kept under
+    id(e) in a table of the draws made so far (itself filled with e.sample(...))"""
+    if t[0] == 'call' and t[1] == ('attr', e, 'sample'):
+        return True
+    if t[0] == 'ite':
+        return drawn_from(t[2], e) and drawn_from(t[3], e)
+    key = intern(('call', 'id', (e,), ()))
+    if t[0] == 'idx' and t[2] == key:
+        def table(c):
+            if c[0] == 'ite':
+                return table(c[2]) and table(c[3])
+            if c[0] == 'upd' and c[2] == 'item':
+                if c[3] == key:
+                    return drawn_from(c[4], e)
+                return table(c[1])
+            # the table as it was handed in: earlier draws, keyed the same way
+            return c[0] in ('sym', 'dict', 'ite')
+        return table(t[1])
+    return False
 
 
 # ----------------------------------------------------------------------
